@@ -174,11 +174,80 @@ private theorem ok_crop_id {α} (file : Bytes) (off : Nat → Nat) (len : Nat) (
   rw [d1, d2] at hin
   rw [readRows_crop _ _ _ _ s _ _ hin]
 
-/-- every BMP variant that is not run-length encoded -- 1/4/8-bit palette images (Windows and OS/2 headers, any palette size),
-    15/16-bit with default or bit-field masks, 24/32-bit, any header size, any file bytes: sub-rectangle read = crop of the full read -/
-theorem C13_crop_bmp_all (init : Rgba8) (file : Bytes) (s : Settings) (want : Option Nat) (img : Img Rgba8)
-    (hfull : bmpRead init file Settings.full want = Res.ok img) (hrle : bmpIsRle file = false) (hin : s.Inside img.w img.h) :
-    bmpRead init file s want = Res.ok (crop s img) := by
+private theorem regionRow_fixed_iff (tly dy h r : Nat) (y : Int) (hr : r < dy) (hy : tly + dy ≤ h) :
+    (rleRegionRow true tly dy y = some (r : Int)) ↔ (rleRegionRow true 0 h y = some ((r + tly : Nat) : Int)) := by
+  unfold rleRegionRow
+  simp only [if_true]
+  constructor
+  · intro hh
+    split at hh
+    · injection hh with hh
+      have : y = r + tly := by omega
+      subst this
+      simp; omega
+    · cases hh
+  · intro hh
+    split at hh
+    · injection hh with hh
+      have : y = r + tly := by push_cast at hh; omega
+      subst this
+      simp; omega
+    · cases hh
+
+/-- the RLE reader with proposed_fixes/C13-bmp-rle-subrectangle.diff (whole rows decoded, region rows copied out): for every byte
+    string, every palette and every rectangle inside the image the sub-rectangle read is the crop of the full read -/
+theorem C13_crop_bmp_rle_fixed (init : Rgba8) (file : Bytes) (info : BmpInfo) (pal : List Rgba8) (s : Settings) (img : Img Rgba8)
+    (hfull : bmpReadRle true init file info pal Settings.full = Res.ok img) (hin : s.Inside img.w img.h) :
+    bmpReadRle true init file info pal s = Res.ok (crop s img) := by
+  unfold bmpReadRle at hfull ⊢
+  simp only [if_true] at hfull ⊢
+  cases hl : rleLoop info.width.toNat (decide (info.compression = 2)) pal info.width.toNat (if info.height > 0 then -1 else 1)
+      (if info.height > 0 then -1 else (info.height.toNat : Int)) (file.length + info.height.toNat + 2)
+      { cur := file.drop info.offset, pos := 0, buf := List.replicate info.width.toNat ⟨0, 0, 0, 0⟩, x := 0,
+        y := if info.height > 0 then (info.height.toNat : Int) - 1 else 0, calls := [], over := false } with
+  | none => rw [hl] at hfull; cases hfull
+  | some st =>
+    rw [hl] at hfull
+    simp only at hfull ⊢
+    have hw : ∀ n, ({} : Settings).dimX n = n := by intro n; simp [Settings.dimX]
+    have hh : ∀ n, ({} : Settings).dimY n = n := by intro n; simp [Settings.dimY]
+    simp only [Settings.full, hw, hh, Nat.zero_add, Nat.lt_irrefl, gt_iff_lt, decide_false, Bool.and_false, Bool.or_false] at hfull
+    split at hfull
+    · cases hfull
+    · rename_i hover
+      injection hfull with hfull
+      subst hfull
+      obtain ⟨hx, hy⟩ := hin
+      simp only at hx hy
+      have hnot : ¬ (info.width.toNat < s.tlx + s.dimX info.width.toNat) := by omega
+      simp only [hover, hnot, decide_false, Bool.and_false, Bool.or_false, Bool.false_eq_true, if_false]
+      congr 1
+      simp only [crop, Img.mk.injEq, true_and]
+      apply List.ext_getElem
+      · simp; omega
+      · intro r h1 h2
+        have hr : r < s.dimY info.height.toNat := by simpa using h1
+        simp only [List.getElem_map, List.getElem_range, List.getElem_take, List.getElem_drop]
+        have hp : (fun e : Int × List Rgba8 => decide (rleRegionRow true s.tly (s.dimY info.height.toNat) e.1 = some (r : Int))) =
+            (fun e : Int × List Rgba8 => decide (rleRegionRow true 0 info.height.toNat e.1 = some ((s.tly + r : Nat) : Int))) := by
+          funext e
+          rw [Nat.add_comm s.tly r]
+          exact decide_eq_decide.2 (regionRow_fixed_iff s.tly _ info.height.toNat r e.1 hr hy)
+        rw [hp]
+        cases List.find? (fun e : Int × List Rgba8 => decide (rleRegionRow true 0 info.height.toNat e.1 = some ((s.tly + r : Nat) : Int))) st.calls with
+        | none =>
+          simp only [sliceRow, List.drop_replicate, List.take_replicate]
+          congr 1
+          omega
+        | some e => simp only []; rw [sliceRow_take _ info.width.toNat s.tlx _ hx]
+
+/-- every BMP variant -- 1/4/8-bit palette images (Windows and OS/2 headers, any palette size), 15/16-bit with default or bit-field
+    masks, 24/32-bit, any header size, any file bytes; run-length encoded files only for the reader with the proposed fix
+    (`rleFixed = true`): sub-rectangle read = crop of the full read -/
+theorem C13_crop_bmp_all (init : Rgba8) (file : Bytes) (s : Settings) (want : Option Nat) (rleFixed : Bool) (img : Img Rgba8)
+    (hfull : bmpRead init file Settings.full want rleFixed = Res.ok img) (hrle : bmpIsRle file = false ∨ rleFixed = true)
+    (hin : s.Inside img.w img.h) :
+    bmpRead init file s want rleFixed = Res.ok (crop s img) := by
   unfold bmpRead at hfull ⊢
   unfold bmpIsRle at hrle
   cases hh : bmpReadHeader file with
@@ -198,7 +267,18 @@ theorem C13_crop_bmp_all (init : Rgba8) (file : Bytes) (s : Settings) (want : Op
       · rename_i hw
         simp only [hw, if_false]
         cases hp : bmpPath info with
-        | rle => exact absurd hp hrle
+        | rle =>
+          rcases hrle with hrle | hrle
+          · exact absurd hp hrle
+          · subst hrle
+            rw [hp] at hfull
+            simp only at hfull ⊢
+            cases hq : bmpReadPalette info cur with
+            | none => rw [hq] at hfull; cases hfull
+            | some q =>
+              obtain ⟨pl, rest⟩ := q
+              rw [hq] at hfull
+              exact C13_crop_bmp_rle_fixed init file info pl s img hfull hin
         | unsupported => rw [hp] at hfull; cases hfull
         | palette =>
           rw [hp] at hfull
